@@ -186,7 +186,7 @@ def gen_ipc(ctx):
         return [poll("m", n=n), ("ct,%d" if timeout else "cm,%d") % cn]
     # exhaustive: all sequences of <= 3 fast ops over a small alphabet, one report at the end
     alpha = [["pb"], ["pp,1.2.3.4,US,0,1,1,r"], ["pp,1.2.3.4,US,0,1,1,m", "cm,2"], ["pp,1.2.3.4,US,5,2,0,m", "cm,0"],
-             ["pp,129.97.208.23,CA,0,2,1,m", "cm,1"], ["cd,2"], ["ze"]] + ([["pp,1.2.3.4,US,6,0,0,m", "cm,2"], ["cd,1"]] if thorough else [])
+             ["pp,129.97.208.23,CA,0,2,1,m", "cm,1"], ["cd,2"], ["ze"]]
     seqs = [[]]
     for depth in range(3 if not thorough else 4):
         seqs = seqs + [sq + [x] for sq in seqs if len(sq) == depth for x in alpha]
@@ -197,7 +197,7 @@ def gen_ipc(ctx):
         for k in list(range(6, 11)) + [15, 16, 17, 24, 25]:
             add(1, [o for _ in range(k) for o in unit] + ["pr"], "ipc-count-boundary")
     # random periods, fast ops only
-    for _ in range(150 if not thorough else 1500):
+    for _ in range(100 if not thorough else 1500):
         ops = []
         for _period in range(rng.randrange(1, 4)):
             for _ in range(rng.choice([0, 1, 3, 7, 8, 9, 12, 20])):
@@ -299,7 +299,7 @@ def gen_journal(ctx):
     add("jwin 10 20 -", "jwin-empty")
     add("jwin 10 10 10:10:5", "jwin-point")
     add("jwin 20 10 10:20:5", "jwin-inverted")
-    for _ in range(250 if not thorough else 2500):
+    for _ in range(150 if not thorough else 2500):
         frm = rng.randrange(0, 30)
         to = frm + rng.choice([0, 1, 5, 10, 30])
         cs, t = [], rng.choice([0, frm, max(0, frm - 1), frm + 1])
@@ -314,7 +314,7 @@ def gen_journal(ctx):
         base = rng.randrange(100, 60000)
         add("jwin 0 100 0:50:%s;50:100:%s" % (".".join(str(base + i) for i in range(n)), ".".join(str(base + n // 2 + i) for i in range(n))), "jwin-larger-sets")
     # the real writer on a tick grid
-    for _ in range(80 if not thorough else 600):
+    for _ in range(60 if not thorough else 600):
         k = rng.choice([0, 1, 2, 3, 5])
         t, ops = 0, []
         for _ in range(rng.randrange(1, 14)):
@@ -363,8 +363,8 @@ def gen_round8(ctx):
         add("conc %d %d %d" % (k, 1, 40), "inc-conc-1")
         add("conc %d %d %d" % (k, rng.choice([3, 5, 7, 9, 11]), 20), "inc-conc-n")
     add("conc 4 25001 4", "inc-conc-bulk")
-    rounds = 2500 if not thorough else 40000
-    for k in (2, 2, 3, 4, 8):
+    rounds = 2000 if not thorough else 8000
+    for k in ((2, 2, 3, 8) if not thorough else (2, 2, 3, 4, 5, 8)):
         add("race %d %d" % (k, rounds), "inc-race-at-boundary")
     add("race 1 50", "inc-race-at-boundary")
     return lines, kinds
